@@ -79,6 +79,7 @@ def run_case(case, built=None, keep_obs=False):
     findings += monitors.check_termination(obs)
     fd, ndisp = monitors.check_dispatch(obs, prog)
     findings += fd
+    findings += monitors.check_instances(obs.trace)
     guards = monitors.lazy_guards(prog)
     refs = {}
     stats = {'steps': obs.steps, 'choice_points': obs.choice_points, 'quiescent': obs.quiescent_points,
